@@ -40,7 +40,18 @@ RejectScript(sh, k) ==
 SlowScript(sh, n) ==
   [nodes |-> sh.nodes, pool |-> sh.pool, use_delay_ms |-> 0, slow_use_node |-> n, slow_use_ms |-> 1200, conn_timeout_ms |-> 300,
    steps |-> Req(2) \o <<[op |-> "use", ks |-> "ks1"]>> \o Req(12) \o Sleep(100) \o Req(12) \o Sleep(1500) \o Req(6)]
-Init == \/ \E sh \in Shapes : \E d \in {0, 30, 80} : \E x \in Disrupt : \E y \in Disrupt : c = [t |-> "script", s |-> Script(sh, d, x, y)]
+\* the application runs the statement USE "Ks1" itself (a name that only quoting preserves); USE answered by a RESULT that is
+\* no error yet acknowledges nothing; a member that owns no tokens
+RawScript(sh, d) ==
+  [nodes |-> sh.nodes, pool |-> sh.pool, use_delay_ms |-> d,
+   steps |-> Req(2) \o <<[op |-> "use", ks |-> "Ks1", raw |-> 1]>> \o Req(8) \o Sleep(100) \o Req(8) \o <<[op |-> "use", ks |-> "ks2"]>> \o Req(8)
+             \o <<[op |-> "use", ks |-> "KS3", raw |-> 1]>> \o <<[op |-> "kill", node |-> 0, which |-> "all", rst |-> 1]>> \o Req(6) \o Sleep(300) \o Req(6)]
+VoidScript(sh, k) == [RejectScript(sh, 0) EXCEPT !.use_reject = 0] @@ [use_void |-> k]
+ZeroTokenScript(sh, d, x) == Script(sh, d, x, << >>) @@ [zero_token |-> Len(sh.nodes) - 1]
+Init == \/ \E sh \in Shapes : \E d \in {0, 30} : c = [t |-> "script", s |-> RawScript(sh, d)]
+        \/ \E sh \in Shapes : \E k \in {1, 2} : c = [t |-> "script", s |-> VoidScript(sh, k)]
+        \/ \E sh \in Shapes : \E d \in {0, 30} : \E x \in {<< >>, <<[op |-> "restart", node |-> 1]>>} : c = [t |-> "script", s |-> ZeroTokenScript(sh, d, x)]
+        \/ \E sh \in Shapes : \E d \in {0, 30, 80} : \E x \in Disrupt : \E y \in Disrupt : c = [t |-> "script", s |-> Script(sh, d, x, y)]
         \/ \E sh \in Shapes : \E k \in {1, 2} : c = [t |-> "script", s |-> RejectScript(sh, k)]
         \/ \E sh \in Shapes : \E n \in {0, 1} : c = [t |-> "script", s |-> SlowScript(sh, n)]
         \/ \E sh \in Shapes : \E d \in {0, 30} : \E w \in {50, 300} : c = [t |-> "script", s |-> DownScript(sh, d, 1, w)]
